@@ -44,7 +44,7 @@ def eq(req, a, b):
     if k0 == "auto":
         # (A) compares Circuit::is_stabilizer_circuit() with the model's conjunction; the run results are judged by (B)
         return a.split(" ")[:2] == b.split(" ")[:2]
-    if k0 == "hist":
+    if k0 in ("hist", "hist2"):
         return b == "any"
     if b.startswith("any "):
         k = req.split(" ", 1)[0]
@@ -147,7 +147,11 @@ SPEC = {
             "resets, classically controlled Clifford AND non-Clifford gates, occasional plain non-Clifford gates) executed with "
             "execute_with_rng (automatic representation) and execute_with(vector) with the same seed; is_stabilizer_circuit() against the "
             "model's conjunction; (10) 60/400 StabilizerState histories: H q0, H q1, measure q0, measure q1, reset q0, then measure/peek q1 "
-            "into a third bit, 8..24 shots. (A) Display text / MeasurementInfo / "
+            "into a third bit, 8..24 shots; (11) WIDE combinator gates through apply_gate: Composites (parity check / fan-out of w-1 CX, H+S layers), "
+            "a Loop of a CX chain and a w-fold Kron on w = 33, 34, 65 (+40, 64 thorough) operands, in forward / shifted / reversed placement, on "
+            "tableaux with negative signs on the low qubits and rows that agree on the last 32 operands; (12) 80/400 StabilizerState histories "
+            "with reset_all after a splitting measurement (also after two splits, and reset_all twice), then X(1) plainly or as a conditional "
+            "gate on all shots, then measure / peek of qubit 1 and measure of qubit 0. (A) Display text / MeasurementInfo / "
             "panic site / error constructor equal the Lean model's; where the code draws random numbers the answer must be one the model "
             "allows. (B) for every request whose tableau describes a stabilizer state of <= 8 qubits (independent commuting rows; the "
             "exact state is computed over Z[zeta_8] by the projector method): the answer tableau must stabilize the exact state-vector "
@@ -157,7 +161,10 @@ SPEC = {
             "group of the rows before, conjugated symbolically by the gate's documented matrix (M P M^H = +-P' searched over Q(zeta_8)); "
             "minto/minto2: the stored bit must select a non-zero projection that the tableau stabilizes, other register bits untouched; auto: the two runs must end in the same result class "
             "(Ok / Err constructor) and, for deterministic circuits, the same register; hist: in every shot the q1 bit stored before the reset "
-            "equals the read-out after it, and the tableaus owned by the shots carry the stored q1 values; a panic of the code under test while "
+            "equals the read-out after it, and the tableaus owned by the shots carry the stored q1 values; wide tgate: the signed rows must generate "
+            "the group obtained by conjugating the rows symbolically through the gate-by-gate expansion of the combinator (primitive matrices "
+            "over Q(zeta_8)); hist2: after reset_all every shot reads 1 for the flipped qubit and 0 for the other, the counts sum to the number "
+            "of shots; a panic of the code under test while "
             "the harness evolves a state is a failure (stream-panicked). "
             "Non-trivial = request on a tableau with an X or Y generator that returned, or any error/panic; distinct = distinct request line.",
     "exhaustive": False,
